@@ -29,6 +29,7 @@ import (
 //	H: like A plus a column K8sNodeName, acronym table {K8s: k8s}
 //	I: like A plus the same column, acronym table {K8s: kube} (the same pattern, another replacement)
 //	J: another workbook (Shop) whose last column is an in-cell struct ({int32 Gold,int32 Gem}Price)
+//	L: GenProto with a custom metasheet name, failing in the first pass (a listed sheet does not exist)
 //	K: GenConf on a hand-written proto file whose messages carry no (tableau.field) options at all (a plain string
 //	   field and a plain cross-cell struct field), same package
 func c16Call(name string, w *workspace) string {
@@ -48,6 +49,18 @@ func c16Call(name string, w *workspace) string {
 		return "ok " + snapString(snapshot(w.Proto)) + "|" + snapString(snapshot(w.Conf))
 	}
 	switch name {
+	case "L":
+		// GenProto with a custom metasheet name that FAILS early (the metasheet lists a sheet the workbook lacks)
+		writeCSV(filepath.Join(w.In, "Game#ItemConf.csv"), [][]string{{"ID", "Name"}, {"map<uint32, Item>", "string"}, {"id", "name"}, {"1", "a"}})
+		writeCSV(filepath.Join(w.In, "Game#@META.csv"), [][]string{{"Sheet"}, {"ItemConf"}, {"Ghost"}})
+		po := &options.ProtoOption{
+			Input:  &options.ProtoInputOption{ProtoPaths: []string{w.Proto}, Formats: []format.Format{format.CSV}, MetasheetName: "@META"},
+			Output: &options.ProtoOutputOption{},
+		}
+		if err := tableau.GenProto("protoconf", w.In, w.Proto, options.Proto(po), options.Log(quietLog)); err != nil {
+			return "protoerr " + errCode(err)
+		}
+		return "ok " + snapString(snapshot(w.Proto))
 	case "J":
 		w.writeCSVBook("", bookSpec{Name: "Shop", Sheets: []sheetSpec{{Name: "ItemConf", Rows: [][]string{{"ID", "Name", "Price"},
 			{"map<uint32, Item>", "string", "{int32 Gold,int32 Gem}Price"}, {"id", "name", "price"}, {"1", "Sword", "10,2"}, {"2", "Shield", "7,1"}, {"3", "Bow", "4,4"}}}}})
@@ -171,7 +184,7 @@ func init() {
 	// e2e.C16.history: every history of ≤ 3 calls from the pool; the LAST call's outcome (files written, error)
 	// in a process that ran the whole history vs. in a fresh process.
 	regStream("e2e.C16.history", func(r *rand.Rand, n int, emit func(string, ...string)) {
-		pool := []string{"A", "B", "C", "D", "E", "F", "G", "H", "I", "J", "K"}
+		pool := []string{"A", "B", "C", "D", "E", "F", "G", "H", "I", "J", "K", "L"}
 		count := 0
 		for _, a := range pool {
 			for _, b := range pool {
